@@ -206,9 +206,18 @@ const (
 	basisSame   basisKind = iota // renter and host at the same tip
 	basisBehind                  // renter a few blocks behind the host, same chain
 	basisFork                    // renter on a stale fork: its tip is not on the host's chain
+	basisFar                     // renter on the host's chain but further behind than the pool rebases a set (144 blocks)
 )
 
-func (b basisKind) String() string { return [...]string{"same", "behind", "fork"}[b] }
+func (b basisKind) String() string { return [...]string{"same", "behind", "fork", "far"}[b] }
+
+// code is the model's view: a basis the host cannot rebase from is an unknown basis.
+func (b basisKind) code() int {
+	if b == basisFar {
+		return int(basisFork)
+	}
+	return int(b)
+}
 
 type world struct {
 	n           *consensus.Network
@@ -273,6 +282,9 @@ func (w *world) arrange() {
 	case basisBehind:
 		must(w.rn.CatchUp(w.hn.CM, 0))
 		must(w.hn.Mine(types.VoidAddress, 3))
+	case basisFar:
+		must(w.rn.CatchUp(w.hn.CM, 0))
+		must(w.hn.Mine(types.VoidAddress, 150))
 	case basisFork:
 		must(w.rn.CatchUp(w.hn.CM, 0))
 		must(w.hn.Mine(types.VoidAddress, 2))
